@@ -67,6 +67,15 @@ def judge(ctx, terms, fn="proto_judge", tag="cases", count=None, shard=120):
     return ctx.judge_cases(HEADER, "pcase", fn, terms, shard=shard, nontrivial=count, tag=tag)
 
 
+DIFF_BITS = [(1, "runs"), (2, "files"), (4, "includes"), (8, "mappings_go"),
+             (16, "mappings_vtproto"), (32, "mappings_grpc"), (64, "plugins")]
+
+
+def decode_sig(sig):
+    """proto_judge_sig -> (verdict code, list of differing observables)"""
+    return sig % 4, [n for b, n in DIFF_BITS if (sig // 4) & b]
+
+
 def spec_diff(ctx, term, tag="diff"):
     v = HEADER + "Definition D := Eval vm_compute in (spec_diff (%s)).\nPrint D.\n" % term
     rc, out = ctx.coq_eval("%s_%s" % (tag, ctx.pid), v)
@@ -127,8 +136,10 @@ def candidates(spec):
     return out
 
 
-def minimise(ctx, tools, j, code, rounds=14):
-    """greedy delta debugging: keep any one-step reduction that is still judged `code`"""
+def minimise(ctx, tools, j, sig, rounds=14):
+    """greedy delta debugging: keep any one-step reduction that is still judged with the same
+    signature (same verdict, same differing observables), so the case cannot drift into a
+    different failure (e.g. an include directory that no longer exists)"""
     best = j
     for rnd in range(rounds):
         cands = candidates(best["spec"])
@@ -137,10 +148,10 @@ def minimise(ctx, tools, j, code, rounds=14):
         terms, jsons, err = run_specs(ctx, tools, "min%d" % rnd, cands)
         if err or not terms:
             break
-        bad, _, err = judge(ctx, terms, tag="min%d" % rnd, shard=4000)
+        bad, _, err = judge(ctx, terms, fn="proto_judge_sig", tag="min%d" % rnd, shard=4000)
         if err:
             break
-        same = [i for i, c in bad if c == code]
+        same = [i for i, c in bad if c == sig]
         if not same:
             break
         best = jsons[same[0]]
